@@ -24,7 +24,8 @@ EXPLANATION = (
     "least significant first, decode consumes words from the end with i*n + k; text normalisation collapses every "
     "kind of whitespace before stretching."
 )
-TECHNIQUE = "static analysis: sibling-function agreement (CKDpriv/CKDpub, encode/decode), width/offset inference for the 78-byte layout, guard dominance, who-may-call, loop-shape checks"
+EXACTNESS = "Second pass (DESIGN.md §10, exactness / completeness halves) — Base58 loops (start values, unconditional accumulation, leading-zero handling decided by the digit test alone, return), all validators of key constructor / writer / reader / child derivation as refusal tables, derived keys stored, gap counted from 0 and announced, mnemonic start values, PBKDF2 argument order."
+TECHNIQUE = "static analysis: sibling-function agreement (CKDpriv/CKDpub, encode/decode), width/offset inference for the 78-byte layout, guard dominance, who-may-call, loop-shape checks; exact fact-set comparison of the tests dominating each effect and refusal (effect / refusal tables), fall-through path queries"
 NOT_DECIDED = ("equality with BIP32 test vectors, elliptic-curve arithmetic, PBKDF2 stretching, and the numeric identity decode(encode(i)) == i "
                "(the structural inverse-loop condition is checked as a necessary condition only); string→key→string of depth>0 keys "
                "(the parent fingerprint is not kept by the reader)")
